@@ -30,6 +30,14 @@ CLAIMED = {
           "Seeded histories with executing reads running state-mutating bytecode (eth_call, eth_callMany with carry-over/overrides, estimateGas(Many), brc20_balance) and getters; oracles: observation unchanged by each read, equality with a twin that never reads, and key-by-key equality of all RocksDB directories after a final commit. Sampling, not proof.",
           "mineTimestamp masked in stored block rows.",
           "DESIGN.md 4 C10"),
+  "C13": ("exploration", "deterministic component simulation against a key -> full-history reference model (seeded op sequences incl. commit/discard/reopen/rollback), plus a bounded exhaustive pass",
+          "Seeded op sequences on the real BlockCachedDatabase (5 key types), BlockDatabase and BlockHistoryCacheData over RocksDB on tmpfs, checked step by step against a trivial model: all point reads after every step, range scans complete and ordered, full scans, rollback inside the window right, deeper rollbacks refused or right, <= 11 persisted versions. A 7-letter alphabet is enumerated to depth 5/7 as a supplement. Sampling, not proof.",
+          "Window measured from the highest block the table has ever been told about (what pruning is relative to). Component preconditions (monotone block numbers) respected by the generator.",
+          "DESIGN.md 4 C13"),
+  "C18": ("exploration", "deterministic simulation: seeded histories x commit schedules x hash seeds, reference log filter over the receipts handed to the indexer",
+          "Seeded histories with 0-4-topic logs under all commit schedules and hash seeds (committed, partly committed and uncommitted ranges), 4 seeded filters per block boundary compared with a reference filter: same logs, each once, chain order; too-wide ranges refused. Sampling, not proof.",
+          "Empty alternative lists, null inside a list and the answer to a reversed range are left open by the statement and not judged (a panic is).",
+          "DESIGN.md 4 C18"),
 }
 
 NOT_APPLICABLE = {
